@@ -328,6 +328,10 @@ public:
             return do_shutdown(client::error::malformed_packet);
         const auto& [session_present, reason_code, ca_props] = *rv;
 
+        // bits 7-1 of the Connect Acknowledge Flags are reserved and must be 0
+        if ((session_present & 0b11111110) != 0)
+            return do_shutdown(client::error::malformed_packet);
+
         _ctx.ca_props = ca_props;
         _ctx.state.session_present(session_present);
 
